@@ -342,8 +342,10 @@ def c13_mutants(rng, nodes, lay):
         if other:
             out.append(("measure between different sizes", ins(pos(), ("measure", ("r", qn), ("r", other[0][0]))),
                         ("UnmatchedRegSize", qs, other[0][1])))
-    out.append(("unbound name in parameter", ins(pos(), ("apply", "rx", [("q", qn, 0)], [("add", ("num", "1"), ("var", "zz"))])),
-                ("UnevaluatedArgument", "UnknownVariable", "zz")))
+    # (the unbound name is often one that IS bound somewhere else: a formal parameter of a gate defined / called earlier)
+    ub = rng.choice(["zz", "theta", "phi", "lam", "theta", "t"])
+    out.append(("unbound name in parameter", ins(pos(), ("apply", "rx", [("q", qn, 0)], [("add", ("num", "1"), ("var", ub))])),
+                ("UnevaluatedArgument", "UnknownVariable", ub)))
     out.append(("unknown function in parameter", ins(pos(), ("apply", "rx", [("q", qn, 0)], [("fun", "sin", [("num", "1")])])),
                 ("UnevaluatedArgument", "FunctionError", "sin")))
     out.append(("indexing inside a gate body", ins(pos(), ("gate", "gbad", ["a"], [], [("apply", "x", [("q", "a", 0)], [])])),
